@@ -114,6 +114,17 @@ def case_root(c, rs, tol):
     p = int([2, 4, 6, 8][rs.randint(4)])
     # spectrum of the real block, ascending, consecutive ratio >= 1.3 (gap at every possible cut)
     a = np.cumprod(1.3 + rs.uniform(0, 0.7, size=ps)) * 10.0 ** rs.uniform(-2, 1)
+    # half of the cases are rank deficient: the z smallest eigenvalues are exactly 0 (z <= |r|, so a
+    # negative rank still retains whole eigenspaces and the cut keeps its gap).  After the ridge a real
+    # null direction has eigenvalue `ridge`, which must not be confused with a padding direction.
+    deficient = bool(rs.randint(2)) and ps - r - 1 >= 1
+    if deficient:
+      z = int(rs.randint(1, min(r, ps - r - 1) + 1))
+      a[:z] = 0.0
+    # with a relative ridge the root value of a null direction is (eps * lambda_hat)^(-1/p) and inherits
+    # the power iteration's stopping slack (lambda_hat in [lambda_max (1 - 1e-4), lambda_max]); the
+    # effect of confusing a null direction with padding is of order 1
+    tol_c = max(tol, 2e-4) if (deficient and rel) else tol
     Q = orth(rs, ps)
     M = np.eye(d) * 7.0 + rs.standard_normal((d, d))     # junk in the padding region
     M = M + M.T
@@ -137,7 +148,7 @@ def case_root(c, rs, tol):
     dev = np.abs(got - want).max() / sc
     nm = "root_rel" if rel else "root_abs"
     worst[nm] = max(worst.get(nm, 0.0), float(dev))
-    if not dev <= tol:
+    if not dev <= tol_c:
       bad.append(["root_denotation", {"rel": rel, "p": p, "dev": float(dev),
                                       "const": [float(const), float(cexp)]}])
     pad = float(np.abs(V[ps:]).max(initial=0.0))
@@ -149,7 +160,7 @@ def case_root(c, rs, tol):
     # the retained eigenvalues themselves, as a multiset (selection rule)
     dsel = np.abs(np.sort(e) - np.sort(h[keep])).max() / sc
     worst["selection"] = max(worst.get("selection", 0.0), float(dsel))
-    if not dsel <= tol:
+    if not dsel <= tol_c:
       bad.append(["retained_root_values", {"got": np.sort(e).tolist(), "want": np.sort(h[keep]).tolist()}])
   return bad, worst
 
